@@ -231,8 +231,8 @@ def explore(item):
                 gks = ("reg",) if tier == "quick" else ("reg", "mix")
                 if hcfg[1] and (hcfg[0] or mtf) and not is_pat:
                     gks = gks + ("gappy", "mix")[: (1 if tier == "quick" else 2)]  # fill only matters when there are gaps
-                for gk in dict.fromkeys(gks):
-                    raw = raw_stream(w, "+", A.regular_gaps(gk, len(w), 120), "T2")
+                for gk, off in [(g, o) for g in dict.fromkeys(gks) for o in (("+", "b") if (hcfg[0] and g == "reg") else ("+",))]:
+                    raw = raw_stream(w, off, A.regular_gaps(gk, len(w), 120), "T2")  # off 'b': raw candles exactly on bucket edges
                     for sched in schedules(len(w), tier):
                         if is_pat and sched != "ctor" and sched[0] != "add" and len(sched) > 4:
                             continue
